@@ -28,6 +28,26 @@ Check relate_sound : forall ar adt_var fn_var fuel a b t gs t' K U,
   relate adt_var fn_var fuel Invariant a b t = (Done gs, t') ->
   exists K' U', inv ar K' U' t' /\ step K U t K' U' t' /\ teq t' gs a b.
 
+(** The meaning of [teq]: in every model of the table and of the returned goals (unknowns valued
+    so that a bound unknown denotes its value, unknowns of one class denote the same thing, two
+    lifetimes related in both directions by the goals denote the same thing) the two related
+    terms have the same denotation. *)
+Theorem teq_sound_in_models : forall (D : Type) (app : head -> list D -> D) (bvar : sort -> N -> N -> D) (cvar : N -> N -> D -> D)
+    (val : N -> D) (t : table) (gs : list tm),
+  (forall v x, bound_to t v x -> val v = den D app bvar cvar val x) ->
+  (forall v w, same_class t v w -> val v = val w) ->
+  (forall a b, kind_of a = KLt -> kind_of b = KLt -> In (outlives_goal a b) gs -> In (outlives_goal b a) gs ->
+               den D app bvar cvar val a = den D app bvar cvar val b) ->
+  forall a b, teq t gs a b -> den D app bvar cvar val a = den D app bvar cvar val b.
+Proof. exact teq_model. Qed.
+Check teq_sound_in_models : forall (D : Type) (app : head -> list D -> D) (bvar : sort -> N -> N -> D) (cvar : N -> N -> D -> D)
+    (val : N -> D) (t : table) (gs : list tm),
+  (forall v x, bound_to t v x -> val v = den D app bvar cvar val x) ->
+  (forall v w, same_class t v w -> val v = val w) ->
+  (forall a b, kind_of a = KLt -> kind_of b = KLt -> In (outlives_goal a b) gs -> In (outlives_goal b a) gs ->
+               den D app bvar cvar val a = den D app bvar cvar val b) ->
+  forall a b, teq t gs a b -> den D app bvar cvar val a = den D app bvar cvar val b.
+
 Theorem relate_complete_partial : forall adt_var fn_var θ fuel a t,
   pattern a = true -> (Closed.depth (app_subst θ a) < fuel)%nat -> mstate θ t -> (forall v, In v (pvars a) -> v < nvars t) ->
   exists t', relate adt_var fn_var fuel Invariant a (app_subst θ a) t = (Done [], t')
